@@ -11,15 +11,14 @@ cp $SRC/demo.py $SV/_demo.py
 ( cd $SV && PYTHONPATH=$SV /venv/bin/python -m pytest -q -p no:cacheprovider -x >/tmp/sv_$$.tests 2>&1 ); TESTS=$?
 ( cd $SV && PYTHONPATH=$SV /venv/bin/python _demo.py >/tmp/sv_$$.mut 2>&1 ); MUT=$?
 TESTSUM=$(tail -1 /tmp/sv_$$.tests)
-git -C /repo worktree remove --force $SV
 echo "apply=$APPLY tests_exit=$TESTS ($TESTSUM) demo_clean_exit=$CLEAN demo_mutated_exit=$MUT"
-if [ $APPLY -ne 0 ] || [ $TESTS -ne 0 ] || [ $CLEAN -ne 0 ] || [ $MUT -eq 0 ]; then echo "SEED REJECTED"; rm -f /tmp/sv_$$.*; exit 4; fi
+if [ $APPLY -ne 0 ] || [ $TESTS -ne 0 ] || [ $CLEAN -ne 0 ] || [ $MUT -eq 0 ]; then echo "SEED REJECTED"; git -C /repo worktree remove --force $SV; rm -f /tmp/sv_$$.*; exit 4; fi
 D=/verif/seeded/$NAME; mkdir -p $D
 cp $SRC/patch.diff $SRC/demo.py $D/; [ -f $SRC/notes.txt ] && cp $SRC/notes.txt $D/
-# 3. the check against the seeded change
-git -C /repo apply $D/patch.diff || { echo "cannot apply to /repo"; exit 5; }
-( cd /verif && timeout 3600 ./check $PROP --tier $TIER > /tmp/sv_$$.check 2>&1 ); CK=$?
-git -C /repo checkout -- .
+# 3. the check against the seeded change: run on the scratch worktree (AW_REPO), /repo itself is not touched
+rm -f $SV/_demo.py
+( cd /verif && AW_REPO=$SV timeout 3600 ./check $PROP --tier $TIER > /tmp/sv_$$.check 2>&1 ); CK=$?
+git -C /repo worktree remove --force $SV
 cp /tmp/sv_$$.check $D/check_output.txt
 NV=$(grep -c '^VIOLATION' /tmp/sv_$$.check)
 FIRST=$(grep -m1 -A1 '^VIOLATION' /tmp/sv_$$.check | tail -1 | cut -c1-300)
